@@ -214,7 +214,7 @@ rollback.rule_id = "C13.ROLLBACK"
 
 
 def probe_restore(repo: Repo) -> RuleRun:
-    r = RuleRun(PROP, "C13.PROBE-RESTORE", floor=3, what="_get_sensitivity restores params and grid on every normal exit")
+    r = RuleRun(PROP, "C13.PROBE-RESTORE", floor=8, what="_get_sensitivity restores params and grid on every normal exit and probes inside the clamp's bounds")
     fn = repo.func("optimize.optimizer.OptimizerBase._get_sensitivity")
     g = CFG(fn.node)
     snaps = _snapshot_vars(fn)
@@ -233,6 +233,70 @@ def probe_restore(repo: Repo) -> RuleRun:
         if not o:
             ok2, p2 = False, p
     r.check(ok2, fn, "grid restored after the parameters", f"_get_sensitivity does not move the grid point back: {fmt_path(p2)}", probes[0].stmt, key="grid")
+    # the finite-difference probe stays inside the clamp's bounds: a clamp that rests at the end of its curve / line is probed
+    # backwards (a parameter beyond the bound is refused by the curve with ValueError, which escapes optimize() half-way)
+    from ..peval import Evaluator as _Ev, NotEvaluable as _NE, Obj as _Obj, Raised as _Raised
+
+    for label, params, bounds in (
+        ("at the upper bound", [0.45], [[0.3, 0.45]]),
+        ("at the lower bound", [0.3], [[0.3, 0.45]]),
+        ("inside the bounds", [0.4], [[0.3, 0.45]]),
+        ("two parameters, second at its upper bound", [0.0, 1.0], [[-1.0, 1.0], [0.0, 1.0]]),
+        ("no bounds", [0.4], None),
+        ("open upper bound", [5.0], [[0.0, None]]),
+    ):
+        clamp = _Obj("clamp")
+        clamp.set("params", list(params))
+        clamp.set("bounds", bounds)
+        clamp.set("position", Sym("position"))
+        this = _Obj("optimizer", cls=fn.cls)
+        grid = _Obj("grid")
+        this.set("grid", grid)
+        seen = {}
+
+        def hook(ev, call, name, seen=seen):
+            nm = (name or "").split(".")[-1]
+            if nm == "approx_fprime":
+                x0 = ev.eval(call.args[0])
+                eps = None
+                for kw in call.keywords:
+                    if kw.arg == "epsilon":
+                        eps = ev.eval(kw.value)
+                if eps is None and len(call.args) > 2:
+                    eps = ev.eval(call.args[2])
+                seen["x0"], seen["eps"] = x0, eps
+                return [0.0 for _ in x0]
+            if nm == "full" and len(call.args) == 2:
+                n_, v_ = ev.eval(call.args[0]), ev.eval(call.args[1])
+                return [v_ for _ in range(n_)]
+            if nm in ("asarray", "array", "copy") and call.args:
+                v_ = ev.eval(call.args[0])
+                return list(v_) if isinstance(v_, list) else v_
+            if nm == "norm":
+                return Sym("norm")
+            if nm in ("get_junction_from_clamp",):
+                return _Obj("junction", index=0, quality=Sym("q"))
+            if nm in ("update_params", "update"):
+                return None
+            return NO_MATCH
+
+        ev = _Ev(repo=repo, module=fn.module, call_hook=hook)
+        ev.float_arith = True
+        try:
+            ev.call_funcinfo(fn, [this, clamp])
+        except (_Raised, _NE) as err:
+            raise AnalysisError(f"_get_sensitivity not evaluable on the probe model ({label}): {err}") from err
+        r.require("eps" in seen, "_get_sensitivity does not reach approx_fprime on the probe model")
+        eps = seen["eps"]
+        steps = list(eps) if isinstance(eps, list) else [eps for _ in params]
+        outside = []
+        for i, (x, h) in enumerate(zip(params, steps)):
+            if not isinstance(h, (int, float)):
+                raise AnalysisError(f"_get_sensitivity: probe step {h!r} is not a number on the model")
+            lo, hi = (bounds[i] if bounds is not None else (None, None))
+            if (hi is not None and x + h > hi + 1e-15) or (lo is not None and x + h < lo - 1e-15):
+                outside.append((i, x, h, (lo, hi)))
+        r.check(not outside, fn, f"probe {label}: inside the bounds", f"_get_sensitivity probes a clamp {label} (params {params}, bounds {bounds}) at " + ", ".join(f"param {i}: {x} + {h:g} outside {b}" for i, x, h, b in outside) + ": the curve refuses the parameter with ValueError, which leaves optimize() before anything is copied back (sketch / mesh differ from the optimizer's positions, clamp.params left outside the bounds)", probes[0].stmt, key=f"probe:{label}")
     return r
 
 
